@@ -24,6 +24,10 @@ class BuiltinMixin:
         self.builtins_used = getattr(self, "builtins_used", set())
         self.builtins_used.add(fv.name)
         name = fv.name
+        if self.config is not None and fv.self is None:
+            summ = self.config.summary_for("builtin:" + name)
+            if summ is not None:
+                return summ(self, st, args, kwargs)
         if fv.self is not None:
             kind, _, meth = name.partition(".")
             m = getattr(self, f"m_{kind}_{meth}", None)
